@@ -187,20 +187,54 @@ def _producer_loop_checks(p, fn, is_res, tok, frontier):
 
 
 
+def _fixed_param(h, pn) -> bool:
+    """Parameter `pn` of `h` is never re-bound in `h`."""
+    ds = defs_of(h, pn)
+    return bool(ds) and all(d.kind == "param" for d in ds)
+
+
+def _extracted_sites(p, f, targets):
+    """`extract method / function`: [(call in f, helper, call in the helper, binding parameter -> argument)] for every
+    call of `f` that resolves to exactly one non-abstract function of the same module which itself calls one of
+    `targets` (one level of inlining; a call forwarding * / ** cannot be bound and is not followed)."""
+    out = []
+    for c in f.calls():
+        if resolves_to(p, f, c, targets, attr_fallback=False):
+            continue
+        qs = rcall(p, f, c, fanout=False)
+        h = p.functions.get(qs[0]) if len(qs) == 1 else None
+        if h is None or h is f or h.is_abstract or h.module is not f.module:
+            continue
+        inner = [x for x in h.calls() if resolves_to(p, h, x, targets, attr_fallback=False)]
+        if not inner:
+            continue
+        b = bind_args(h.node, c, bound=h.cls is not None)
+        if b is None:
+            continue
+        out += [(c, h, x, b) for x in inner]
+    return out
+
+
 def r1(ctx):
     p = ctx.prog
     f = p.func(f"{UTILS}.ProvenanceGraph.build_graph")
     g = f.cfg
-    exp_calls = [c for c in f.calls() if resolves_to(p, f, c, ["streamflow.persistence.utils.load_dependee_tokens"], attr_fallback=False)]
-    ctx.require(bool(exp_calls), "C18.R1: build_graph no longer calls load_dependee_tokens")
+    target = ["streamflow.persistence.utils.load_dependee_tokens"]
+    # (call of build_graph whose evaluation is the expansion, function holding the load call, the load call, binding)
+    exp_sites = [(c, f, c, None) for c in f.calls() if resolves_to(p, f, c, target, attr_fallback=False)] + _extracted_sites(p, f, target)
+    ctx.require(bool(exp_sites), "C18.R1: build_graph no longer calls load_dependee_tokens (neither directly nor through a helper of its module)")
     rec_tests = _test_nodes_with(f, lambda c: isinstance(c.func, ast.Attribute) and c.func.attr == "is_recovering")
     av_tests = _test_nodes_with(f, lambda c: isinstance(c.func, ast.Attribute) and c.func.attr == "is_available")
     ctx.require(len(rec_tests) == 1, f"C18.R1: expected one is_recovering test in build_graph, found {len(rec_tests)}")
     ctx.require(len(av_tests) == 1, f"C18.R1: expected one is_available test in build_graph, found {len(av_tests)}")
-    for ec in exp_calls:
-        lids = g.node_containing(ec)
+    for hc, sf, ec, hb in exp_sites:
+        gs = sf.cfg
+        via = "" if sf is f else f" (the expansion is performed by the helper {sf.qualname}, invoked as `{unparse(hc)[:70]}`)"
+        if sf is not f:
+            ctx.observe(f"C18.R1: load_dependee_tokens is called by the helper {sf.qualname}; the call `{unparse(hc)[:70]}` of build_graph is analysed as the expansion")
+        lids = g.node_containing(hc)
         ctx.require(bool(lids), "C18.R1: CFG node of load_dependee_tokens not found")
-        loop = next((a for a in ancestors(ec) if isinstance(a, ast.While)), None)
+        loop = next((a for a in ancestors(hc) if isinstance(a, ast.While)), None)
         ctx.require(loop is not None, "C18.R1: the expansion is not inside the frontier loop")
         heads = g.ids_of(loop.test)
         for label, (t, eff, call), want_msg in (
@@ -230,8 +264,8 @@ def r1(ctx):
                 if sloppy:
                     bad = [t.id]
                     why = "- and tokens are treated as `being recovered` without is_recovering() having returned True -"
-            ctx.ob("R1", f"producers are not loaded when {want_msg}", bad is None, func=f, node=ec, instance=f"expand:not-when-{label}",
-                   message=f"load_dependee_tokens is evaluated {why}: jobs whose outputs are still usable are re-executed",
+            ctx.ob("R1", f"producers are not loaded when {want_msg}", bad is None, func=f, node=hc, instance=f"expand:not-when-{label}",
+                   message=f"load_dependee_tokens is evaluated {why}: jobs whose outputs are still usable are re-executed{via}",
                    witness=g.describe(bad or []))
             # tested in the same iteration
             skip = None
@@ -240,21 +274,26 @@ def r1(ctx):
                     if i == t.id:
                         continue
                     skip = skip or g.path(h, [i], avoid=[t.id])
-            ctx.ob("R1", f"the `{label}` test is evaluated in every iteration before the expansion", skip is None, func=f, node=ec,
-                   instance=f"expand:tested-{label}", message=f"load_dependee_tokens can be reached without evaluating `{t.text(60)}`",
+            ctx.ob("R1", f"the `{label}` test is evaluated in every iteration before the expansion", skip is None, func=f, node=hc,
+                   instance=f"expand:tested-{label}", message=f"load_dependee_tokens can be reached without evaluating `{t.text(60)}`{via}",
                    witness=g.describe(skip or []))
         # same token tested and expanded
         t, _eff, call = av_tests[0]
         recv = call.func.value
         arg0 = ec.args[0] if ec.args else (ec.keywords[0].value if ec.keywords else None)
-        same = isinstance(recv, ast.Name) and arg0 is not None and mentions(
-            f, arg0, lambda n: isinstance(n, ast.Attribute) and n.attr == "persistent_id" and isinstance(n.value, ast.Name) and n.value.id == recv.id, depth=1)
-        ctx.ob("R1", "the expanded token is the one whose availability was tested", same, func=f, node=ec, instance="expand:same-token",
-               message=f"availability is tested on `{unparse(recv)}` but `{unparse(arg0) if arg0 is not None else '?'}` is expanded")
+        # the local of `sf` that holds the tested token: the receiver itself, or - in a helper - the parameter bound to it
+        tokname = recv.id if isinstance(recv, ast.Name) else None
+        if sf is not f and tokname is not None:
+            cands = [pn for pn, a in hb.items() if isinstance(strip(a), ast.Name) and strip(a).id == tokname and _fixed_param(sf, pn)]
+            tokname = cands[0] if len(cands) == 1 else None
+        same = tokname is not None and arg0 is not None and mentions(
+            sf, arg0, lambda n: isinstance(n, ast.Attribute) and n.attr == "persistent_id" and isinstance(n.value, ast.Name) and n.value.id == tokname, depth=1)
+        ctx.ob("R1", "the expanded token is the one whose availability was tested", same, func=f, node=hc, instance="expand:same-token",
+               message=f"availability is tested on `{unparse(recv)}` but `{unparse(arg0) if arg0 is not None else '?'}` is expanded{via}")
         # no producers => raise ; producers => linked to the token and queued unless already visited
-        ets = [n for n in g.nodes.values() if n.kind == "test" and (any(c is ec for c in n.calls()) or mentions(f, n.ast, lambda x: x is ec, depth=1))]
+        ets = [n for n in gs.nodes.values() if n.kind == "test" and (any(c is ec for c in n.calls()) or mentions(sf, n.ast, lambda x: x is ec, depth=1))]
         res_names = set()
-        for n in f.body_nodes():
+        for n in sf.body_nodes():
             if isinstance(n, ast.NamedExpr) and strip(n.value) is ec:
                 res_names.add(n.target.id)
             if isinstance(n, ast.Assign) and strip(n.value) is ec and len(n.targets) == 1 and isinstance(n.targets[0], ast.Name):
@@ -265,29 +304,34 @@ def r1(ctx):
 
         if ets:
             et = ets[0]
-            neg = branch_edges(g, et, lambda x, v: v is False and is_result(x))
+            neg = branch_edges(gs, et, lambda x, v: v is False and is_result(x))
             if len(neg) != 1:
-                ctx.ob("R1", "an unavailable token without producers raises", False, func=f, node=ec, instance="expand:no-producers",
-                       message=f"no outcome of `{et.text(70)}` singles out the case `no producers`: it cannot raise exactly then")
+                ctx.ob("R1", "an unavailable token without producers raises", False, func=f, node=hc, instance="expand:no-producers",
+                       message=f"no outcome of `{et.text(70)}` singles out the case `no producers`: it cannot raise exactly then{via}")
             else:
-                empty_reg = region(g, et.id, neg[0])
-                nxt = set(heads) | {g.exit}
+                empty_reg = region(gs, et.id, neg[0])
+                # the case `no producers` must not go on: next iteration / end of build_graph, or - in a helper - a normal return
+                nxt = (set(heads) | {g.exit}) if sf is f else {gs.exit}
                 leak = next((i for i in empty_reg if i in nxt), None)
-                ctx.ob("R1", "an unavailable token without producers raises", leak is None and any(g.nodes[i].kind == "raise_stmt" for i in empty_reg),
-                       func=f, node=ec, instance="expand:no-producers", message="a lost token that cannot be regenerated is silently treated as a root")
+                ctx.ob("R1", "an unavailable token without producers raises", leak is None and any(gs.nodes[i].kind == "raise_stmt" for i in empty_reg),
+                       func=f, node=hc, instance="expand:no-producers", message=f"a lost token that cannot be regenerated is silently treated as a root{via}")
         else:
-            ctx.ob("R1", "an unavailable token without producers raises (result not tested in place)", True, func=f, node=ec,
+            ctx.ob("R1", "an unavailable token without producers raises (result not tested in place)", True, func=f, node=hc,
                    instance="expand:no-producers", trivial=True)
         fr_names = {n.id for n in [loop.test, *ast.walk(loop.test)] if isinstance(n, ast.Name)}
-        views = [(f, is_result, recv.id if isinstance(recv, ast.Name) else None, None)] + _producer_helper_views(
-            p, f, loop, is_result, recv.id if isinstance(recv, ast.Name) else None, fr_names)
+        if sf is f:
+            views = [(f, is_result, tokname, None)] + _producer_helper_views(p, f, loop, is_result, tokname, fr_names)
+        else:
+            # the whole expansion block lives in the helper: its frontier is the parameter bound to the caller's frontier
+            fr_params = {pn for pn, a in hb.items() if isinstance(a, ast.Name) and a.id in fr_names and _fixed_param(sf, pn)}
+            views = [(sf, is_result, tokname, fr_params)]
         okl, msgl = False, "the producers returned by load_dependee_tokens are not iterated"
         for fn_, is_res_, tok_, frontier_ in views:
             for ok_, msg_ in _producer_loop_checks(p, fn_, is_res_, tok_, frontier_):
                 if ok_ or not okl:
                     okl, msgl = okl or ok_, msg_
-        ctx.ob("R1", "every loaded producer is linked to the lost token and queued for examination unless already seen", okl, func=f, node=ec,
-               instance="expand:link", message=msgl)
+        ctx.ob("R1", "every loaded producer is linked to the lost token and queued for examination unless already seen", okl, func=f, node=hc,
+               instance="expand:link", message=msgl + via)
         # the search runs while the frontier is not empty
         wt = g.nodes[heads[0]] if heads else None
         fr = {n.id for n in [loop.test, *ast.walk(loop.test)] if isinstance(n, ast.Name)}
@@ -397,32 +441,53 @@ def r2(ctx):
         ctx.ob("R2", "a path without any PRIMARY location makes the token unavailable", w is None, func=f, node=n.ast, instance="file:no-location",
                message="a path with no registered PRIMARY location does not make the token unavailable", witness=g.describe(w or []))
     # (c) no location passes _is_path_available
-    chk = [c for c in f.calls() if resolves_to(p, f, c, [f"{TOK}._is_path_available"], attr_fallback=False)]
-    ctx.require(len(chk) == 1, "C18.R2: expected one _is_path_available call in FileToken.is_available")
-    ck = chk[0]
+    # the check of the locations: written in is_available itself, or - `extract function` - in a helper of the module that
+    # is_available calls (one level): (call of is_available standing for the check, function holding the
+    # `_is_path_available` call, that call, binding parameter -> argument)
+    chk_target = [f"{TOK}._is_path_available"]
+    chk = [(c, f, c, None) for c in f.calls() if resolves_to(p, f, c, chk_target, attr_fallback=False)] or _extracted_sites(p, f, chk_target)
+    ctx.require(len(chk) == 1, "C18.R2: expected one _is_path_available call in FileToken.is_available (directly or in one helper of its module)")
+    hc, sf, ck, hb = chk[0]
+    via = "" if sf is f else f" (the locations are checked by the helper {sf.qualname}, invoked as `{unparse(hc)[:70]}`)"
+    if sf is not f:
+        ctx.observe(f"C18.R2: _is_path_available is called by the helper {sf.qualname}; its call `{unparse(hc)[:70]}` in FileToken.is_available is analysed as the location check")
+
+    def is_locs_sf(e):
+        if sf is f:
+            return is_locs(e)
+        # in the helper: a parameter bound to the data locations at the call site and never re-bound
+        return isinstance(e, ast.Name) and e.id in hb and is_locs(hb[e.id]) and _fixed_param(sf, e.id)
+
     agg = next((a for a in ancestors(ck) if isinstance(a, ast.Call) and isinstance(a.func, ast.Name) and a.func.id in ("any", "all", "sum", "max", "min", "next")), None)
-    is_any = agg is not None and is_builtin_call(p, f, agg, "any")
+    is_any = agg is not None and is_builtin_call(p, sf, agg, "any")
     comp = next((a for a in ancestors(ck) if isinstance(a, (ast.GeneratorExp, ast.ListComp, ast.SetComp))), None)
-    over_all = comp is not None and len(comp.generators) == 1 and not comp.generators[0].ifs and is_locs(comp.generators[0].iter) and isinstance(
+    over_all = comp is not None and len(comp.generators) == 1 and not comp.generators[0].ifs and is_locs_sf(comp.generators[0].iter) and isinstance(
         comp.generators[0].target, ast.Name) and any(isinstance(a, ast.Name) and a.id == comp.generators[0].target.id for a in ck.args)
-    awaited = any(isinstance(a, ast.Await) for a in ancestors(ck))
-    ctx.ob("R2", "availability = any(_is_path_available(loc) for every PRIMARY location)", is_any and over_all and awaited, func=f, node=ck, instance="file:any-location",
-           message=f"aggregate is builtin any={is_any}, over all locations without filter={over_all}, awaited={awaited}")
-    if agg is not None:
-        tn = [n for n in g.nodes.values() if n.kind == "test" and any(x is agg for x in n.walk())]
+    awaited = any(isinstance(a, ast.Await) for a in ancestors(ck)) and (sf is f or (sf.is_async and is_awaited(hc)))
+    ctx.ob("R2", "availability = any(_is_path_available(loc) for every PRIMARY location)", is_any and over_all and awaited, func=f, node=hc, instance="file:any-location",
+           message=f"aggregate is builtin any={is_any}, over all locations without filter={over_all}, awaited={awaited}{via}")
+    # the expression of is_available that carries the aggregate: the aggregate itself, or the call of the helper whose
+    # every return yields it (temporaries followed)
+    agg_f = agg
+    if sf is not f and agg is not None:
+        hrets = [r for r in sf.body_nodes() if isinstance(r, ast.Return)]
+        agg_f = hc if hrets and all(r.value is not None and [strip(v) for v in returned_exprs(sf, r)] == [agg] for r in hrets) else None
+    if agg_f is not None:
+        tn = [n for n in g.nodes.values() if n.kind == "test" and any(x is agg_f for x in n.walk())]
         if not tn:
             # result stored in a local first
-            tn = [n for n in g.nodes.values() if n.kind == "test" and mentions(f, n.ast, lambda x: x is agg, depth=1)]
+            tn = [n for n in g.nodes.values() if n.kind == "test" and mentions(f, n.ast, lambda x: x is agg_f, depth=1)]
         ctx.require(len(tn) == 1, "C18.R2: the result of the location check is not tested")
         n = tn[0]
-        neg = branch_edges(g, n, lambda x, v: v is False and (x is agg or (isinstance(x, ast.Name) and any(d.value is agg for d in defs_of(f, x.id)))))
+        neg = branch_edges(g, n, lambda x, v: v is False and (x is agg_f or (isinstance(x, ast.Name) and any(
+            d.value is not None and strip(d.value) is agg_f for d in defs_of(f, x.id)))))
         ctx.require(len(neg) == 1, "C18.R2: cannot tell which outcome means `no location holds the path`")
         w = _only_false(g, succ(g, n.id, neg[0]))
         ctx.ob("R2", "a path that exists on none of its locations makes the token unavailable", w is None, func=f, node=n.ast, instance="file:lost",
-               message="a path that no location holds any more does not make the token unavailable: lost data is not regenerated", witness=g.describe(w or []))
+               message=f"a path that no location holds any more does not make the token unavailable: lost data is not regenerated{via}", witness=g.describe(w or []))
     else:
-        ctx.ob("R2", "a path that exists on none of its locations makes the token unavailable", False, func=f, node=ck, instance="file:lost",
-               message="the results of _is_path_available are not aggregated")
+        ctx.ob("R2", "a path that exists on none of its locations makes the token unavailable", False, func=f, node=hc, instance="file:lost",
+               message="the results of _is_path_available are not aggregated" + (f": the helper {sf.qualname} does not return the aggregate on every return" if agg is not None else "") + via)
     # (d) `return True` only after all paths
     trues = [n for n in g.nodes.values() if n.kind == "return" and _ret_kind(n) != "False"]
     ctx.require(bool(trues), "C18.R2: FileToken.is_available never returns True")
@@ -655,6 +720,12 @@ def r4(ctx):
     `is_available()` / `is_recovering()` is always truthy)."""
     names = [f"{UTILS}.ProvenanceGraph.build_graph", f"{UTILS}.GraphMapper.get_step_ids", f"{UTILS}.create_graph_mapper",
                               f"{TOK}.FileToken.is_available", f"{TOK}._is_path_available", f"{TOK}.ListToken.is_available", f"{TOK}.ObjectToken.is_available"]
+    # helpers extracted from the anchored functions (those R1 / R2 follow) are covered too
+    p = ctx.prog
+    for q, tg in ((f"{UTILS}.ProvenanceGraph.build_graph", ["streamflow.persistence.utils.load_dependee_tokens"]), (f"{TOK}.FileToken.is_available", [f"{TOK}._is_path_available"])):
+        for _c, h, _x, _b in _extracted_sites(p, p.func(q), tg):
+            if h.qualname not in names:
+                names.append(h.qualname)
     check_awaited(ctx, "R4", names)
     check_defined(ctx, "R4", names, classes=[f"{UTILS}.ProvenanceGraph", f"{UTILS}.GraphMapper"])
 
@@ -1123,6 +1194,39 @@ def _link_producers(graph: ProvenanceGraph, token, prev_tokens, token_frontier):
         if prev_token.persistent_id not in graph.info_tokens.keys() and not contains_persistent_id(prev_token.persistent_id, token_frontier):
             token_frontier.append(prev_token)
 """
+_AV_ELIF = "        elif (is_available := (await token.is_available(context=self.context))):\n            self.add(token)\n"
+_EXP_OLD = ("        elif (prev_tokens := (await load_dependee_tokens(token.persistent_id, loading_context))):\n" + _PLOOP
+            + "            if logger.isEnabledFor(logging.DEBUG):\n"
+            "                logger.debug(f'Token with id {token.persistent_id} is not available, its previous tokens are {[t.persistent_id for t in prev_tokens]}')\n"
+            "        else:\n            raise FailureHandlingException(f'Token with id {token.persistent_id} is not available and it does not have previous tokens')\n")
+_EXP_NEW = "        else:\n            await _expand_token(self, token, token_frontier, loading_context)\n"
+_EXP_HELPER = """
+async def _expand_token(graph: ProvenanceGraph, token, token_frontier, loading_context):
+    if (prev_tokens := (await load_dependee_tokens(token.persistent_id, loading_context))):
+        for prev_token in prev_tokens:
+            graph.add(prev_token, token)
+            if prev_token.persistent_id not in graph.info_tokens.keys() and not contains_persistent_id(prev_token.persistent_id, token_frontier):
+                token_frontier.append(prev_token)
+    else:
+        raise FailureHandlingException(f'Token with id {token.persistent_id} is not available and it does not have previous tokens')
+"""
+# the same extraction as a private method of the class (refactoring B14-5); text relative to the class
+_BG_TAIL = ("            if logger.isEnabledFor(logging.DEBUG):\n"
+            "                logger.debug(f'Token id {token.persistent_id} is {('' if is_available else 'not ')}available')\n"
+            "            self.info_tokens.setdefault(token.persistent_id, ProvenanceToken(instance=token, is_available=is_available, port_id=port_row['id'], port_name=port_row['name']))")
+_EXP_METHOD_NEW = ("            else:\n                await self._add_previous_tokens(token, token_frontier, loading_context)\n")
+_EXP_METHOD = ("\n    async def _add_previous_tokens(self, token: Token, token_frontier: deque[Token], loading_context: DefaultDatabaseLoadingContext) -> None:\n"
+               "        if (prev_tokens := (await load_dependee_tokens(token.persistent_id, loading_context))):\n"
+               "            for prev_token in prev_tokens:\n                self.add(prev_token, token)\n"
+               "                if prev_token.persistent_id not in self.info_tokens.keys() and (not contains_persistent_id(prev_token.persistent_id, token_frontier)):\n"
+               "                    token_frontier.append(prev_token)\n"
+               "        else:\n            raise FailureHandlingException(f'Token with id {token.persistent_id} is not available and it does not have previous tokens')\n")
+_ANY_OLD = "elif not any(await asyncio.gather(*(asyncio.create_task(_is_path_available(context, data_loc)) for data_loc in data_locations))):"
+_ANY_NEW = "elif not await _is_any_path_available(context, data_locations):"
+_ANY_HELPER = """
+async def _is_any_path_available(context: StreamFlowContext, data_locations) -> bool:
+    return any(await asyncio.gather(*(asyncio.create_task(_is_path_available(context, data_loc)) for data_loc in data_locations)))
+"""
 _CLOOP_OLD = ("        for port_row in await asyncio.gather(*(asyncio.create_task(self.context.database.get_port(row_dependency['port'])) for row_dependency in dependency_rows)):\n"
               "            if port_row['name'] not in self.port_tokens.keys():\n                step_to_remove.add(step_id)\n")
 
@@ -1252,6 +1356,34 @@ VARIANTS = [
       "    return all(await asyncio.gather(*(asyncio.create_task(t.is_available(context)) for t in self.value)))",
       "    _sf_ret = all(await asyncio.gather(*(asyncio.create_task(t.is_available(context)) for t in self.value)))\n    _sf_ret = True\n    return _sf_ret", "R2"),
     V("loop combinator restore: last component through rsplit", COMB_FILE, _CR, "int(iteration.split('.')[-1])", "int(iteration.rsplit('.', 1)[-1])", None),
+    # ---- refactoring B14-5: the whole expansion block extracted into a helper (method / module-level coroutine)
+    V("expansion block extracted into a private method", UTILS_FILE, f"{UTILS}.ProvenanceGraph",
+      "\n".join("    " + ln if ln else ln for ln in _EXP_OLD.split("\n")) + _BG_TAIL, _EXP_METHOD_NEW + _BG_TAIL + _EXP_METHOD, None),
+    V("expansion block extracted into a private method that forgets the raise", UTILS_FILE, f"{UTILS}.ProvenanceGraph",
+      "\n".join("    " + ln if ln else ln for ln in _EXP_OLD.split("\n")) + _BG_TAIL,
+      _EXP_METHOD_NEW + _BG_TAIL + _EXP_METHOD.replace("            raise FailureHandlingException(f'Token with id {token.persistent_id} is not available and it does not have previous tokens')", "            return None"), "R1"),
+    V("expansion block extracted into a module-level coroutine", UTILS_FILE, _BG, _EXP_OLD, _EXP_NEW, None, append=_EXP_HELPER),
+    V("extracted expansion invoked for available tokens", UTILS_FILE, _BG, _AV_ELIF + _EXP_OLD,
+      _AV_ELIF.replace("elif (is_available", "elif not (is_available") + _EXP_NEW, "R1", append=_EXP_HELPER),
+    V("extracted expansion receives another token", UTILS_FILE, _BG, _EXP_OLD, _EXP_NEW.replace("(self, token,", "(self, t,"), "R1", append=_EXP_HELPER),
+    V("extracted expansion: a token without producers becomes a root", UTILS_FILE, _BG, _EXP_OLD, _EXP_NEW, "R1",
+      append=_EXP_HELPER.replace("        raise FailureHandlingException(f'Token with id {token.persistent_id} is not available and it does not have previous tokens')", "        graph.add(token)")),
+    V("extracted expansion queues on a copy of the frontier", UTILS_FILE, _BG, _EXP_OLD, _EXP_NEW.replace("token_frontier,", "deque(token_frontier),"), "R1", append=_EXP_HELPER),
+    V("extracted expansion re-binds the token before loading", UTILS_FILE, _BG, _EXP_OLD, _EXP_NEW, "R1",
+      append=_EXP_HELPER.replace("    if (prev_tokens :=", "    token = token_frontier[0] if token_frontier else token\n    if (prev_tokens :=")),
+    V("extracted expansion not awaited", UTILS_FILE, _BG, _EXP_OLD, _EXP_NEW.replace("await _expand_token", "_expand_token"), "R4", append=_EXP_HELPER),
+    # ---- refactoring B12-8: the aggregate over the locations extracted into a module-level coroutine
+    V("location check extracted into a helper coroutine", TOKEN_FILE, _FA, _ANY_OLD, _ANY_NEW, None, append=_ANY_HELPER),
+    V("location check extracted, result through a temporary", TOKEN_FILE, _FA, "            " + _ANY_OLD + "\n                return False",
+      "            else:\n                found = await _is_any_path_available(context, data_locations)\n                if not found:\n                    return False", None,
+      append=_ANY_HELPER.replace("    return any(", "    res = any(").replace("data_locations)))\n", "data_locations)))\n    return res\n")),
+    V("extracted location check demands all locations", TOKEN_FILE, _FA, _ANY_OLD, _ANY_NEW, "R2", append=_ANY_HELPER.replace("return any(", "return all(")),
+    V("extracted location check looks at the first location only", TOKEN_FILE, _FA, _ANY_OLD, _ANY_NEW, "R2",
+      append=_ANY_HELPER.replace("for data_loc in data_locations)))", "for data_loc in data_locations[:1])))")),
+    V("extracted location check returns the negated aggregate", TOKEN_FILE, _FA, _ANY_OLD, _ANY_NEW, "R2", append=_ANY_HELPER.replace("return any(", "return not any(")),
+    V("extracted location check receives other locations", TOKEN_FILE, _FA, _ANY_OLD, _ANY_NEW.replace("data_locations)", "[])"), "R2", append=_ANY_HELPER),
+    V("extracted location check: outcome inverted at the call site", TOKEN_FILE, _FA, _ANY_OLD, _ANY_NEW.replace("elif not await", "elif await"), "R2", append=_ANY_HELPER),
+    V("extracted location check not awaited", TOKEN_FILE, _FA, _ANY_OLD, _ANY_NEW.replace("not await _is", "not _is"), "R2", append=_ANY_HELPER),
     # producer loop extracted into a helper (B8-5) / collected with any(...) over a temporary (B8-6)
     V("producer loop extracted into a helper function", UTILS_FILE, _BG, _PLOOP, "            _link_producers(self, token, prev_tokens, token_frontier)\n", None,
       append=_LINK_HELPER),
